@@ -234,6 +234,17 @@ func (x *intTranslator) bv(t *Term) *itrans {
 		return r
 	}
 	r := x.bv0(t)
+	if t.w > 0 && t.op != OpConst {
+		// the engine's own (sound, assumption-free) interval analysis tightens the interval
+		rg := x.tb.rangeOf(t)
+		lo, hi := bi(rg.lo), bi(rg.hi)
+		if lo.Cmp(r.iv.lo) > 0 || hi.Cmp(r.iv.hi) < 0 {
+			nl, nh := maxB(r.iv.lo, lo), minB(r.iv.hi, hi)
+			if nl.Cmp(nh) <= 0 {
+				r = &itrans{e: r.e, iv: itv{nl, nh}, tz: r.tz}
+			}
+		}
+	}
 	if b, ok := x.bounds[t]; ok && r != nil {
 		// The bound comes from an asserted atom; it is re-asserted here over the
 		// translation of t that does NOT use it (only bounds of strict sub-terms),
